@@ -368,7 +368,7 @@ func (d *c17Daemon) step(id string, r *rand.Rand) bool {
 	switch {
 	case kind < 40: // ---- well-formed, authorised commands
 		requester := []*c17Face{d.app, d.app2}[r.Intn(2)]
-		switch r.Intn(7) {
+		switch r.Intn(8) {
 		case 0, 1: // rib/register
 			n := pick("/r")
 			a := &mgmt.ControlArgs{Name: n}
@@ -546,6 +546,46 @@ func (d *c17Daemon) step(id string, r *rand.Rand) bool {
 			}
 			d.capacity = int(capv)
 			c.Distinct("ok|cs/config")
+		case 6: // faces/destroy of a face that holds routes: every dataset must drop what belonged to it
+			tmp := d.newFace(r.Intn(2) == 0, 400+len(d.log))
+			for j := 1 + r.Intn(2); j > 0; j-- {
+				n := pick("/r")
+				o := []uint64{0, 65, 128}[r.Intn(3)]
+				a := &mgmt.ControlArgs{Name: n, FaceId: u64p(tmp.id), Origin: u64p(o)}
+				d.log = append(d.log, fmt.Sprintf("%s: face %d rib/register %s face=%d origin=%d (a face about to be destroyed)", id, requester.id, n, tmp.id, o))
+				cp := c17Params(a)
+				resp := d.command(requester, "/localhost/nfd", "rib", "register", &cp, 15*time.Second)
+				if resp == nil || resp.StatusCode != 200 {
+					d.fail("C17:valid-command-not-200:rib/register", id, "well-formed rib/register for a newly created face was answered with "+respStr(resp), nil)
+					return false
+				}
+				if d.routes[n.String()] == nil {
+					d.routes[n.String()] = map[string]refRoute{}
+				}
+				d.routes[n.String()][fmt.Sprintf("%d/%d", tmp.id, o)] = refRoute{face: tmp.id, origin: o, cost: 0, flags: 1}
+			}
+			if !d.checkTables(id, "routes registered for a face about to be destroyed") {
+				return false
+			}
+			d.log = append(d.log, fmt.Sprintf("%s: faces/destroy face=%d", id, tmp.id))
+			cp := c17Params(&mgmt.ControlArgs{FaceId: u64p(tmp.id)})
+			resp := d.command(requester, "/localhost/nfd", "faces", "destroy", &cp, 15*time.Second)
+			if resp == nil || resp.StatusCode != 200 {
+				d.fail("C17:valid-command-not-200:faces/destroy", id, "faces/destroy of an existing face was answered with "+respStr(resp), nil)
+				return false
+			}
+			for k, m := range d.routes {
+				for rk, rt := range m {
+					if rt.face == tmp.id {
+						delete(m, rk)
+					}
+				}
+				if len(m) == 0 {
+					delete(d.routes, k)
+				}
+			}
+			c.Count("faces_destroyed_holding_routes", 1)
+			c.Distinct("ok|faces/destroy|with-routes")
 		default: // faces/update with a usable MTU, then traffic on the face
 			tgt := d.targetFace(r)
 			mtu := uint64([]int{128, 200, 1500, 8800, 9000, 100000}[r.Intn(6)])
